@@ -261,6 +261,10 @@ def run_one(ch, cfg):
                        "exit_status": status, "stdout_tail": out[-160:]}}
 
 
+ENUM_LABELS = ["platform", "command", "mode", "not-onboarded", "echo-bad", "pin-kind", "pin-via-prompt",
+               "invalid-attempts-first", "answers", "anypin", "nounlock/noexec"]
+
+
 class _Enum:
     def __init__(self, tier):
         import itertools
